@@ -247,6 +247,9 @@ def mutant_jobs(prop, repo):
     jobs.append(("twin", "reformat:whole-tree", ("*", "reformat")))
     # whole-tree twin: every local variable of every function renamed
     jobs.append(("twin", "rename-locals:whole-tree", ("*", "rename_locals")))
+    # whole-tree twins: methods of every class / functions of every module change places
+    jobs.append(("twin", "reverse-methods:whole-tree", ("*", "reverse_methods")))
+    jobs.append(("twin", "reverse-module-functions:whole-tree", ("*", "reverse_module_functions")))
     for kind, jid, rule_id, rel, src in generate(model):
         try:
             ast.parse(src)
